@@ -61,7 +61,7 @@ def run(ctx):
             cand[n] = (f, ps)
     inner = {n for n, (f, ps) in cand.items() if not any(t.get("rpath") in cand and t.get("rpath") != n for b, t in f.calls())}
     lookups = [cand[n][0] for n in sorted(inner)]
-    ctx.floor("R16.1", "lookup functions that count hits/misses", len(lookups), 2)
+    ctx.floor("R16.1", "lookup functions that count hits/misses", len(lookups), 1)
     for f in lookups:
         ctx.touch(f)
         paths = cand[f.name][1]
@@ -178,7 +178,7 @@ def run(ctx):
     charge_fns = {s["fn"].name for s in M.inc_sites if not (s["amount"][0] == "binop" and s["amount"][1] == "Sub")}
     admit = {n for n, f in F.fns.items() if f.rec.get("ret", "").endswith("command::CommandStatus") and any(t.get("rpath") in charge_fns for b, t in f.calls())}
     handlers = [f for n, f in F.fns.items() if any(t.get("rpath") in admit for b, t in f.calls()) and n not in admit]
-    ctx.floor("R16.4", "put handlers calling admission", len(handlers), 2)
+    ctx.floor("R16.4", "put handlers calling admission", len(handlers), 1)
     for f in handlers:
         ctx.touch(f)
         bad = []
@@ -287,17 +287,24 @@ def run(ctx):
 
 
 def check_delta_helper(ctx, g, wadd):
-    """update_weight_stats(new, old): new > old => WeightAdded += new - old ; else WeightAdded += f(old - new)"""
+    """update_weight_stats(new, old): new > old => WeightAdded += new - old ; else WeightAdded += f(old - new)
+    (decided per symbolic path, whichever way the comparison and the branches are written)"""
+    from core import lt_truth
+    NEW, OLD = ("param", 2), ("param", 3)
     ok_gt = ok_le = False
-    for p in enum_paths(g):
-        atoms = path_atoms(g, p)
-        calls = [(b, t) for b, t in path_calls(g, p) if t.get("rpath") in wadd]
-        cmp_ = [a for a in atoms if a[0] == "bool" and a[1] == ("binop", "Lt", ("param", 3), ("param", 2))]
-        if len(calls) != 1 or not cmp_:
+    for p in ipaths(ctx.facts, g, stop=lambda n: n in wadd, depth=2):
+        calls = p.calls(wadd)
+        gt = [lt_truth(a, lambda z: z == OLD, lambda z: z == NEW) for a in p.atoms]
+        gt = [x for x in gt if x is not None]
+        if len(calls) != 1 or not gt:
             return False
-        amt = g.op_origin(calls[0][1]["args"][1])
-        if cmp_[0][2]:
-            ok_gt = strip_casts(amt) == ("binop", "Sub", ("param", 2), ("param", 3))
+        amt = calls[0].args[1]
+        if gt[0]:
+            if strip_casts(amt) != ("binop", "Sub", NEW, OLD):
+                return False
+            ok_gt = True
         else:
-            ok_le = mentions(amt, lambda s: s == ("binop", "Sub", ("param", 3), ("param", 2)))
+            if not mentions(amt, lambda s_: s_ == ("binop", "Sub", OLD, NEW)):
+                return False
+            ok_le = True
     return ok_gt and ok_le
